@@ -581,7 +581,7 @@ def run_instance(inst, tier):
             confirmed = []
             for r in fails:
                 r2 = byid.get(r['property'])
-                if r2 is not None and r2.get('status') != 'FAILURE':
+                if r2 is not None and r2.get('status') == 'SUCCESS':
                     # the sliced formula failed but the full (unsliced) one does not: --slice-formula
                     # dropped an assumption (e.g. a model bound) that makes the path infeasible.
                     # Not a counterexample; recorded, never reported.
